@@ -5,3 +5,6 @@ import WrglModel.Props.C16
 #print axioms Wrgl.C16_ingest_schedule_independent
 #print axioms Wrgl.C16_ingest_can_finish
 #print axioms Wrgl.C16_lost_update_witness
+#print axioms Wrgl.C16_fact_mergeErrChan
+#print axioms Wrgl.C16_error_report_never_blocks
+#print axioms Wrgl.C16_error_report_blocks_witness
